@@ -82,6 +82,21 @@ ALREADY = """
 - `MultipleSolutionFound.__init__` indexing its arguments; `update_cls_args` via `dataclasses.fields`; the `elif` order in
   `extract_selected_variable_and_expression`; `symbolic_new` replacing quantified keyword arguments by `._var_`; `_warn_on_unbound_variables_` sizing the domain by iterating;
   `HashedIterable.__iter__` replaying the live dict view; `Comparator` setting `_eval_parent_` on the wrong operand; `Not` remembering the operand it negated
+- dropping `self._eval_parent_ = None` from the reset, or any `x._eval_parent_ = self` from an evaluator; `_required_variables_from_child_` asking the
+  parent about `child` instead of `self`, passing `when_true` on unchanged, or guarding `ForAll`'s additions by `when_true`
+- `_is_duplicate_output_` called on another row than the one yielded; dropping the `return` of a 'bound already' branch; `suppress_true_duplicates` added to / removed
+  from a replay; moving `self._is_false_ = …` below the duplicate test or the cache update
+- `HashedIterable.pulled` cleared on exhaustion or appended to in `add()`; `set_iterable` made eager; `HashedIterable.union` in place; `required_vars.update(var)`
+- `==` instead of `is` between nodes in `refinement()`; `_conclusions_of_all_descendants_` over `_children_`; the reset of `concluded_before` moved; marking
+  `self.var._var_` as inferred in `Conclusion.__post_init__`; dropping the `_is_inferred_` guard of `_inform_selected_variables_…`; hoisting `_unbound_conclusion_variables_`
+  out of the row loop; `symbolic_mode(query)` setting `rule_mode` for every mode
+- `_extract_variables_and_expression` adding a selected sub-query as a conjunct only conditionally; `select_one_or_select_many_or_infer` dropping `*properties`;
+  `Variable._all_variable_instances_` filtering by `isinstance`; `Concatenate._all_variable_instances_ + [self]`; `Literal` copying its constant or not wrapping scalars;
+  `__eq__` rewriting `== True/False`; `__ge__` building `gt`; `__getattr__` memoising `Attribute` nodes
+- `cls_args` keyed by `__qualname__`; `type(x) is not cls` for a single-object domain; `hybrid_new` going symbolic whenever a query block is open; `__enter__` skipping the push;
+  `properties_to_expression_tree` switching the mode by hand; the `@predicate` wrapper deferring only in query mode; `The._evaluate__` not passing `sources`
+- `IndexedCache.retrieve` sharing one accumulator between branches, `cache.get(All)` tested by truth, `check()` answered by walking the tree; the literal filter of
+  `LogicalOperator.__post_init__` changed to `v.value`; `ForAll` evaluating the universal without `sources`; `_process_output_and_update_values_` yielding by `result_truthy`
 """
 TEMPLATE = """# Task
 
